@@ -112,12 +112,30 @@ func randomWalk(r *rand.Rand, n int, maxCalls int, allowFail bool) clientScenari
 				acts = append(acts, CAct{Op: "releaserecv", C: c})
 				calls[c].rparked = false
 			}
-		case x < 97 && allowFail:
+		case x < 96 && allowFail:
 			acts = append(acts, CAct{Op: "wfail", On: r.Intn(2) == 0})
+		case x < 98:
+			acts = append(acts, CAct{Op: "tick", B: tickMillis[r.Intn(len(tickMillis))]})
 		case allowFail && !failed && len(acts) > n/2:
 			acts = append(acts, CAct{Op: "failread"})
 			failed = true
 		}
 	}
 	return clientScenario{Acts: acts, Tags: []string{"walk", fmt.Sprintf("len=%d", n)}}
+}
+
+// virtual-clock advances of the lock-step alphabet: 1 ms, 60 ms, 1 s, 31 s (past the 30 s context of the reset
+// write), 1 h
+var tickMillis = []int64{1, 60, 1000, 31000, 3600000}
+
+// sprinkleTicks inserts clock advances into an action sequence: after each action with probability 1/den.
+func sprinkleTicks(r *rand.Rand, acts []CAct, den int) []CAct {
+	out := make([]CAct, 0, len(acts)+4)
+	for _, a := range acts {
+		out = append(out, a)
+		if r.Intn(den) == 0 {
+			out = append(out, CAct{Op: "tick", B: tickMillis[r.Intn(len(tickMillis))]})
+		}
+	}
+	return out
 }
